@@ -41,18 +41,20 @@ OBL = os.path.join(V.COQ, "obligations")
 L_BROKER = "eventlogger.Broker.lock"
 
 PROTOCOL_CALLBACK = ("KCallback", "KCallHolding", "KReqAcqOverlap", "KCalleeUndeclared")
+PROTOCOL_ORDER = ("KLockOrder",)
 ACCESS = ("KUnguardedRead", "KUnguardedWrite", "KImmutableWrite")
 KIND_TEXT = {
     "KReacquire": "lock acquired while already held", "KAcqUndeclared": "acquires a lock missing from its acquires entry",
     "KRelMode": "lock released in the wrong mode", "KRelNotHeld": "release of a lock that is not held", "KRelUndeclared": "release of an undeclared lock",
     "KUnguardedRead": "unguarded read of", "KUnguardedWrite": "unguarded write of", "KImmutableWrite": "write of an immutable field outside a constructor:",
-    "KCallback": "callback runs under a lock it may acquire:", "KCallRequires": "call without the locks the callee requires:",
+    "KCallback": "callback runs under a lock it may acquire:",
+    "KLockOrder": "acquired (or callee / callback that acquires it reached) while a lock of equal or higher rank is held:", "KCallRequires": "call without the locks the callee requires:",
     "KCallHolding": "call while holding a lock the callee (or a callback / goroutine it reaches) acquires:",
     "KCalleeUndeclared": "callee acquires a lock missing from the caller's acquires entry:",
     "KBreakLocks": "break/continue with a different lock set than at region entry", "KBreakOutside": "break outside a region",
     "KBranches": "branches disagree on held locks / deferred actions", "KLoopNeutral": "loop body not lock-neutral", "KSwitchNeutral": "switch/select not lock-neutral",
     "KDeferInLoop": "defer inside a loop", "KDeferInSwitch": "defer inside a switch", "KReturnHeld": "return with a different lock set than at entry",
-    "KGoHeld": "goroutine ends with locks held", "KLiteralNeutral": "function literal not lock-neutral", "KReqAcqOverlap": "function may (via a callback) acquire a lock its callers must hold",
+    "KGoHeld": "goroutine ends with locks held", "KGoHolding": "goroutine started while holding a lock it (or a callback it reaches) may acquire", "KLiteralNeutral": "function literal not lock-neutral", "KReqAcqOverlap": "function may (via a callback) acquire a lock its callers must hold",
     "KUndefinedCallee": "call of a function the translator did not emit:", "KDuplicateName": "two functions with one name:", "KEntryRequires": "exported function with lock requirements:",
     "KLiteralCallee": "function handed a literal acquires locks:", "KUnsupported": "construct the translator cannot express:",
 }
@@ -800,9 +802,11 @@ _TECH = "Coq soundness proof of a modular lockset checker + obligation re-evalua
 PROPS = {"C04": check_C04, "C12": check_C12, "C19": check_C19}
 MANIFEST = {
     "C12": {"text": "LockSound.v: check_sound (checker sound w.r.t. the big-step trace semantics, for every program/contract/extra caller locks), "
-                    "program_callback_never_under / program_no_self_deadlock / program_call_releases_all for all threads incl. started goroutines; per run "
-                    "Obl_C12.v re-proves no_broker_lock_at_user_callback_obligation and send_lock_scope on the regenerated program. Partial: excludes the lock-induced ways "
-                    "of blocking for ever; sequential termination and the dispatch protocol are not in the lock language. Search: lockh watchdog over every operation x "
+                    "program_callback_never_under / program_no_self_deadlock / program_call_releases_all for all threads incl. started goroutines; LockDeadlock.v: no_deadlock / "
+                    "program_never_stuck (any number of threads, writer-preferring RW locks, callbacks that may call Send modelled as needing Broker.lock read-acquirable: some thread "
+                    "can always step; uses the lock order checked by the same checker); per run Obl_C12.v re-proves no_broker_lock_at_user_callback_obligation, send_lock_scope and "
+                    "generated_never_stuck on the regenerated program. Partial: excludes the lock-induced ways of blocking for ever; sequential termination, the dispatch protocol (C03) "
+                    "and data-dependent re-entry (gated filter: C11) are not in the lock language. Search: lockh watchdog over every operation x "
                     "re-entrant node x gated filter with 0..3 groups x parked writer.",
             "design_ref": "5.C12", "note": _NOTE, "technique": _TECH, "engine": "coq-locks"},
 }
@@ -824,7 +828,7 @@ MANIFEST["C04"] = {
             "calls with Broker.step that explains all results and the final VerifSnapshot. Search: the same histories plus getters/Reopen/setters under -race, reports classified "
             "by (field, reader fn, writer fn). Partial: Go memory model, sync.Map contract, translator completeness are assumed.",
     "design_ref": "5.C04", "note": _NOTE, "technique": _TECH + "; differential correspondence on concurrent histories", "engine": "coq-locks"}
-ENGINE = {"name": "coq-locks", "path": "coq/LockLang.v coq/LockSound.v coq/Contracts.v coq/LockExamples.v coq/Conc.v coq/ConcProofs.v coq/ConcExamples.v coq/Run_Conc.v coq/obligations translate/ harness/cmd/lockh harness/cmd/stressh harness/cmd/conch lib/eng_locks.py",
+ENGINE = {"name": "coq-locks", "path": "coq/LockLang.v coq/LockSound.v coq/LockDeadlock.v coq/Contracts.v coq/LockExamples.v coq/Conc.v coq/ConcProofs.v coq/ConcExamples.v coq/Run_Conc.v coq/obligations translate/ harness/cmd/lockh harness/cmd/stressh harness/cmd/conch lib/eng_locks.py",
           "serves_properties": ["C04", "C12", "C19"], "kind_free_text": "translator (Go source -> Coq command language) + proved lockset checker re-run by vm_compute; watchdog / race-detector search drivers"}
 
 
